@@ -158,11 +158,16 @@ def cia_physical_table(rng):
     ngroups = int(rng.integers(1, 4))
     lo = float(np.round(10 ** rng.uniform(0.5, 2.5), 3))
     groups = []
+    shared = False
     for gi in range(ngroups):
         n = int(rng.integers(2, 12))
         width = float(10 ** rng.uniform(1.0, 3.0))
         wn = np.round(np.linspace(lo, lo + width, n), 4)
-        lo = float(wn[-1] + np.round(10 ** rng.uniform(0.3, 2.0), 3))
+        if rng.random() < 0.25:
+            lo = float(wn[-1])               # the next range starts ON the last wavenumber of this one (both records kept)
+            shared = True
+        else:
+            lo = float(wn[-1] + np.round(10 ** rng.uniform(0.3, 2.0), 3))
         if gi == 0 or rng.random() < 0.4:
             own = temps.copy()                                   # tabulated at every temperature
         else:
@@ -200,7 +205,8 @@ def cia_physical_table(rng):
         spans.append((c, c + len(g['wn']), float(g['temps'].min()), float(g['temps'].max())))
         c += len(g['wn'])
     return blocks, {'wn': wn_all, 'T': temps, 'x': x, 'ngroups': ngroups, 'groups': spans,
-                    'partial': any(len(g['temps']) < nT for g in groups)}
+                    'partial': any(len(g['temps']) < nT for g in groups),
+                    'shared_wavenumber': bool(len(np.unique(wn_all)) != len(wn_all))}
 
 
 def write_cia_pickle(path, wn, T, x_m5):
